@@ -110,6 +110,7 @@ type Contract struct {
 	Nullable    []string // pointer-typed cells that may be nil at entry
 	GhostParams []string
 	Lets        []GhostStmt // entry parametrisation: lvalue = expr (substituted into the entry state)
+	Inner       map[string]map[int]*Annot // loop annotations of inlined functions (closures), by function name
 	Theorem     bool        // a block of pure SMT goals (no Go function): inductive lemmas used as axioms by contracts
 	Goals       []TheoremGoal
 	Modulo      []GhostStmt // hypotheses "monomial = polynomial" used as rewrite rules by eqmod (ideal membership)
@@ -241,6 +242,7 @@ func ParseContracts(file string) ([]*Contract, error) {
 	var out []*Contract
 	var cur *Contract
 	var ann *Annot
+	curInner := ""
 	sc := bufio.NewScanner(fh)
 	sc.Buffer(make([]byte, 1<<20), 1<<24)
 	ln := 0
@@ -273,6 +275,7 @@ func ParseContracts(file string) ([]*Contract, error) {
 			kw = kw[:strings.Index(kw, "[")]
 		}
 		if kw == "func" {
+			curInner = ""
 			cur = &Contract{Func: rest, File: file, Line: ln, Loops: map[int]*Annot{}, Options: map[string]string{}, Alias: "all", Tags: "any"}
 			out = append(out, cur)
 			ann = nil
@@ -485,8 +488,20 @@ func ParseContracts(file string) ([]*Contract, error) {
 				return nil, fail(err)
 			}
 			a := &Annot{}
-			cur.Loops[n] = a
+			if curInner != "" {
+				cur.Inner[curInner][n] = a
+			} else {
+				cur.Loops[n] = a
+			}
 			ann = a
+		case "inner": // the loop annotations that follow belong to this inlined (anonymous or helper) function
+			curInner = rest
+			if cur.Inner == nil {
+				cur.Inner = map[string]map[int]*Annot{}
+			}
+			if cur.Inner[curInner] == nil {
+				cur.Inner[curInner] = map[int]*Annot{}
+			}
 		case "option":
 			kv := strings.SplitN(rest, " ", 2)
 			v := "true"
